@@ -13,7 +13,7 @@ import scenarios
 import props as P
 
 HARNESS = os.path.join(VERIF, 'harness')
-BUILD = os.path.join(VERIF, 'build')
+BUILD = os.environ.get('VERIF_BUILD_DIR') or os.path.join(VERIF, 'build')
 REPO = '/repo'
 
 ENV = dict(os.environ, CARGO_NET_OFFLINE='true', CARGO_TERM_COLOR='never')
@@ -433,6 +433,9 @@ def judge_config(prop, tier, config, spec, an, insts, part, known, violations, b
             entry['replay'] = 'NOT reproduced'
     # vacuity: every cover of a scenario family must be satisfiable for at least one capacity
     for (fam, cmsg), sts in sorted(fam_covers.items()):
+        need = re.match(r'^\(N>=(\d+)\)', cmsg)
+        if need and not any(isinstance(i['n'], int) and i['n'] >= int(need.group(1)) for i in insts if i['scen'].fn == fam):
+            continue        # this witness needs a capacity that this property's set does not contain
         if not any(s in ('Satisfied', 'Covered', 'Success') for s in sts):
             broken.append('vacuity: cover "%s" of %s is never satisfied (%s)' % (cmsg, fam, sorted(set(sts))))
     part['covers'] = {'%s: %s' % k: ('satisfied in %d of %d instances' % (sum(1 for s in v if s in ('Satisfied', 'Covered', 'Success')), len(v)))
